@@ -45,6 +45,8 @@ enum {
     CF_MEM_SAMPLES,       /* >0: sample live library heap bytes at call boundaries, keep every n-th sample */
     CF_STRICT_RAW,        /* well-formed input: raw *_HEADER_DATA / *_TRAILER_DATA must not follow their side's COMPLETE callback */
     CF_TX_CFG,            /* install an application-owned copy of the configuration for every transaction (htp_tx_set_config, shared) */
+    CF_HDR_LIMIT,         /* >0: htp_config_set_number_headers_limit (0: library default, 1024) */
+    CF_LEADING_WS,        /* 1..3: htp_config_set_requestline_leading_whitespace_unwanted(HTP_UNWANTED_IGNORE/400/404) */
     CF__N = 40
 };
 
@@ -122,6 +124,8 @@ typedef struct {
     uint64_t leftover_in, leftover_out;    /* runs ending with unconsumed pending data */
     uint64_t stalls;                       /* both directions suspended at end */
     uint64_t null_tx_callbacks;            /* callbacks invoked with a NULL transaction (observation) */
+    uint64_t cb_after_stop_at_close;       /* parsing callbacks run by htp_connp_close/req_close for a direction that had reported STOP (observation) */
+    uint64_t closes_after_error;           /* close calls made while a direction was in ERROR (judged: no callbacks, state kept) */
     uint64_t viol[20];                     /* violations by property number */
 } hx_stats;
 void hx_stats_add(hx_stats *dst, const hx_stats *src);
